@@ -746,10 +746,20 @@ type cfTable struct {
 	cases       []cfCase
 }
 
-func c15Tables(c *Ctx, r *Report, rule string) {
-	r.rule(rule, "Caddyfile option tables: each unmarshaller, evaluated on concrete token sequences with a model of the dispenser (Next/NextArg/NextBlock/Nesting/Val/RemainingArgs/CountRemainingArgs/NextSegment/NewFromNextSegment/NewDispenser as in caddy v2.8.4) and of the module registry (caddyfile.UnmarshalModule(d, id) is the UnmarshalCaddyfile of the type registered under id, evaluated in place on a fresh value; JSON encodings are kept as references to the encoded objects), stores exactly the configuration its documented syntax denotes and rejects what the syntax does not allow", 240)
+func c15Tables(c *Ctx, r *Report, rule string) { c15TablesFor(c, r, rule, "") }
+
+// c15TablesFor: the option tables, restricted to the unmarshallers of the packages whose path contains only.
+func c15TablesFor(c *Ctx, r *Report, rule, only string) {
+	floor := 240
+	if only != "" {
+		floor = 3
+	}
+	r.rule(rule, "Caddyfile option tables: each unmarshaller, evaluated on concrete token sequences with a model of the dispenser (Next/NextArg/NextBlock/Nesting/Val/RemainingArgs/CountRemainingArgs/NextSegment/NewFromNextSegment/NewDispenser as in caddy v2.8.4) and of the module registry (caddyfile.UnmarshalModule(d, id) is the UnmarshalCaddyfile of the type registered under id, evaluated in place on a fresh value; JSON encodings are kept as references to the encoded objects), stores exactly the configuration its documented syntax denotes and rejects what the syntax does not allow", floor)
 	msgCtx = c
 	for _, tb := range cfTables {
+		if only != "" && !strings.Contains(tb.fn, only) {
+			continue
+		}
 		fn := c.Fn(tb.fn)
 		if fn == nil {
 			r.bad(rule, tb.fn, "exists", "-", "unmarshaller not found")
